@@ -664,6 +664,15 @@ func (c *Ctx) applyTableOverrides(from int) {
 			o.Key == "R5:M6", o.Key == "R5:M7", o.Key == "R5:M8", o.Key == "R5:M13",
 			o.Key == "R17:V1", o.Key == "R17:V2", o.Key == "R17:V3", o.Key == "R17:V4", o.Key == "R17:V5", o.Key == "R17:V7", o.Key == "R17:V9":
 			table = c.tableCovered["table:run"]
+		case strings.HasPrefix(o.Key, "R9a:"), strings.HasPrefix(o.Key, "R9b:"):
+			// R9a:<label>:<kind>@<fn> — the finite table of that axis source
+			rest := o.Key[4:]
+			if j := strings.LastIndex(rest, "@"); j >= 0 {
+				rest = rest[:j]
+			}
+			if j := strings.LastIndex(rest, ":"); j >= 0 {
+				table = c.tableCovered["R9f:"+rest[:j]]
+			}
 		case o.Key == "R5:M10":
 			table = c.tableCovered["table:opset"]
 		case strings.HasPrefix(o.Key, "R6:T6:"), strings.HasPrefix(o.Key, "R6:T7:"):
